@@ -39,7 +39,7 @@ def check(pid, engine, text, note, technique, design_ref):
 
 check(
     "C14", "fresh",
-    "Seeded search over sequences of public mutators (model parameters, rho, damping, Translate/Rotate/Symmetry, mesh.coord=, simu.mesh=, Bc_Init and re-adding conditions, time-scheme switches, Save_Iter/Set_Iter) interleaved with reads and solves on 1-3 live simulations sharing meshes and models; after every read the live result is compared with a brand-new simulation built from a declarative record of the final configuration. Injected linear-back-end failures inside Solve check that a failed solve leaves the state untouched and the retry equals the unfaulted result; injected allocation failures interrupt an assembly part-way and the repeated read must still equal the fresh build; scripted orderings (multi-mesh histories, 'discarded attempt': save, change the load, solve, Set_Iter(-1), read) are mixed into the random stream; a Beam frame actor (parameters, connections) is compared with a frame rebuilt from scratch. Sampling, not enumeration: a clean batch is evidence, not proof.",
+    "Seeded search over sequences of public mutators (model parameters, rho, damping, Translate/Rotate/Symmetry, mesh.coord=, simu.mesh=, Bc_Init and re-adding conditions, time-scheme switches, Save_Iter/Set_Iter) interleaved with reads and solves on 1-3 live simulations sharing meshes and models; after every read the live result is compared with a brand-new simulation built from a declarative record of the final configuration. Injected linear-back-end failures inside Solve check that a failed solve leaves the state untouched and the retry equals the unfaulted result; injected allocation failures interrupt an assembly part-way and the repeated read must still equal the fresh build; scripted orderings (multi-mesh histories, 'discarded attempt': save, change the load, solve, Set_Iter(-1), read) are mixed into the random stream; meshes with 0-3 nodes that no element uses (another number on every mesh of a run) and stretched copies of a mesh (same array sizes, other operators) take part in the mesh replacements; a Beam frame actor (parameters, connections, the frame meshed again with the other element type and assigned to simu.mesh) is compared with a frame rebuilt from scratch. Sampling, not enumeration: a clean batch is evidence, not proof.",
     "Trusted: the reference builder (simkit.simlib/meshlib: constructor calls only, no deepcopy), NumPy/SciPy, and that a freshly constructed simulation is correct (that is what C01-C13 are about). Boundary-condition values are resolved at the time they are added (compared then against a fresh simulation) and replayed as resolved arrays afterwards. Solutions of the BoundConstrain phase-field solver (scipy lsq_linear, interior method) are not compared digit-wise (its systems are).",
     "deterministic simulation: seeded op/fault sequences vs fresh-build reference model, ddmin-minimised replay files",
     "DESIGN.md section 5, C14",
@@ -47,7 +47,7 @@ check(
 
 check(
     "C15", "hist",
-    "Seeded search over histories of solve / Save_Iter / folder change / Get_results / Set_Iter / Result(iter=i) / mesh replacement / time-scheme switch / Save / Load_Simu / Mesh.Save+Load_Mesh / scribbling on returned arrays, for Elastic (static and dynamic), Thermal, PhaseField, InElastic, HyperElastic, WeakForms and Beam (frame with a connection) simulations with 1-3 meshes in one history (including meshes with two main-dimension groups, TRI3 + QUAD4, whose group order fixes the element numbering; element-wise results are part of the snapshots), on a simulated disk. Oracle: deep-copied snapshots taken when each iteration was saved (fields, internal variables, mesh digest, named results); after every operation every stored iteration is re-read and compared exactly. A separate fault batch injects EIO/ENOSPC/EACCES on open/write/read and process kills (clean and torn) inside Save_Iter/Save/Get_results/Set_Iter/Load_Simu with the narrowed oracle 'may fail, never wrong data', including restart from what the disk holds.",
+    "Seeded search over histories of solve / Save_Iter / folder change / Get_results / Set_Iter / Result(iter=i) / mesh replacement / time-scheme switch / Save / Load_Simu / Mesh.Save+Load_Mesh / scribbling on returned arrays, for Elastic (static and dynamic), Thermal, PhaseField, InElastic, HyperElastic, WeakForms and Beam (frame with a connection; a second mesh with moved interior nodes; internal forces fx, fy among the recorded results) simulations with 1-3 meshes in one history (including meshes with nodes that no element uses, meshes with two main-dimension groups, TRI3 + QUAD4, whose group order fixes the element numbering; element-wise results are part of the snapshots), on a simulated disk. Oracle: deep-copied snapshots taken when each iteration was saved (fields, internal variables, mesh digest, named results); after every operation every stored iteration is re-read and compared exactly. A separate fault batch injects EIO/ENOSPC/EACCES on open/write/read and process kills (clean and torn) inside Save_Iter/Save/Get_results/Set_Iter/Load_Simu with the narrowed oracle 'may fail, never wrong data', including restart from what the disk holds.",
     "Trusted: the snapshot recorder (deep copies through public getters plus the two name-mangled state attributes the property's anchors name: InElastic committed variables, PhaseField history field), pickle, the tmpfs under the simulated disk. Process kill semantics: bytes accepted by write() survive (no power-loss model). Velocity/acceleration are compared after Set_Iter only when the scheme active at restore time stores them. Two open findings are steered around in the random batch and reproduced from their own replay files (known_findings.json).",
     "deterministic simulation with disk-fault and crash injection: seeded op/fault sequences vs snapshot reference model, ddmin-minimised replay files",
     "DESIGN.md section 5, C15",
@@ -62,7 +62,7 @@ check(
 )
 check(
     "C04", "bc",
-    "Seeded search over sequences of add_dirichlet (constants, nodal arrays, functions of position; overlapping node sets, duplicated dofs, any order), add_neumann / add_lineLoad / add_surfLoad / add_volumeLoad, generic multi-point Lagrange conditions, beam connections (fixed / hinged) on 2D and 3D frames, Bc_Init, back-end switches (direct, cg, bicg, gmres, lgmres) and Solve, for Elastic (2D/3D), Thermal, Beam (Euler-Bernoulli and Timoshenko), HyperElastic (Newton-incremental) and meshes with orphan nodes. After every Solve: constrained dofs hold the sum of their entries, multi-point constraints are satisfied, the solution equals a dense KKT reference solve of the very K and F the simulation assembled (kappa-scaled; 10*kappa*rtol for iterative back ends), the residual is orthogonal to the constraint null space, nothing is NaN. Newton actors: a brand-new simulation with the same conditions started at the returned solution must find a residual at the level of the Newton tolerances and must not move. Injected back-end failures (for Newton loops also placed relative to the end of the loop, whose length is measured on a discarded twin): the failed Solve leaves the solution untouched and the retry passes all of the above.",
+    "Seeded search over sequences of add_dirichlet (constants, nodal arrays, functions of position; overlapping node sets, duplicated dofs, any order), add_neumann / add_lineLoad / add_surfLoad / add_volumeLoad, generic multi-point Lagrange conditions, beam connections (fixed / hinged) on 2D and 3D frames, Bc_Init, back-end switches (direct, cg, bicg, gmres, lgmres) and Solve, for Elastic (2D/3D), Thermal, linear WeakForms (scalar and vector fields), Beam (Euler-Bernoulli and Timoshenko; solves are generated for clamped and connected frames), HyperElastic (Newton-incremental) and meshes with orphan nodes (all actors). After every Solve: constrained dofs hold the sum of their entries, multi-point constraints are satisfied, the solution equals a dense KKT reference solve of the very K and F the simulation assembled (kappa-scaled; 10*kappa*rtol for iterative back ends), the residual is orthogonal to the constraint null space, nothing is NaN. Newton actors: a brand-new simulation with the same conditions started at the returned solution must find a residual at the level of the Newton tolerances and must not move. Injected back-end failures (for Newton loops also placed relative to the end of the loop, whose length is measured on a discarded twin): the failed Solve leaves the solution untouched and the retry passes all of the above.",
     "Trusted: the dense reference (simkit.engines.bc._reference), NumPy, K and F as assembled (C01-C03, C09). Duplicated Dirichlet dofs are generated with and without Lagrange conditions (sum of the entries on both solver paths). Distributed loads are generated only on node sets that bound loaded elements. The bounded least-squares back end only accepts bounded problems and is exercised by the phase-field engine. Newton non-convergence with duplicated dofs is flagged only if the same problem with merged entries converges.",
     "deterministic simulation: seeded constraint-call/back-end/fault sequences vs dense KKT reference model, ddmin-minimised replay files",
     "DESIGN.md section 5, C04",
@@ -91,7 +91,7 @@ check(
 )
 check(
     "C18", "hyper",
-    "PARTIAL CLAIM - the discrete energy-balance clause and, on the visited states only, the Newton-system consistency clause. Seeded trajectories of free motion (clamped or free bodies; static preload and/or random initial velocity) under the midpoint scheme with the gonzalez stress, the adaptive quadrature stress (energyTol = 1e-10), fixed strain-path rules (1, 2, 3, 5 points: exactly conserving for Saint-Venant-Kirchhoff, whose dW/de is linear) and the pointwise stress (not conserving: consistency checks only), optionally with Kelvin-Voigt viscosity or an active fibre stress (non-conservative: consistency checks only), for NeoHookean, Mooney-Rivlin, Ciarlet-Geymonat, Saint-Venant-Kirchhoff and Holzapfel-Ogden (two fibre families, every term switched on) laws, step-size changes between steps, Save_Iter / Set_Iter rollback and injected back-end failures inside a Newton iteration followed by a retry. Invariant after every step: |KE + W - E0| <= 1e-5 of the energy scale; a failed step leaves (u, v, a) untouched; rollback returns to the recorded energy. At trial states away from u_n along the trajectory: A = coefK K + coefC C + coefM M applied to a direction equals the central difference of the assembled residual (scheme, stress option and previous state included). At the reference state each run starts from: W = 0, zero internal force, the unloaded static solve does not move the body.",
+    "PARTIAL CLAIM - the discrete energy-balance clause and, on the visited states only, the Newton-system consistency clause. Seeded trajectories of free motion (clamped or free bodies; static preload and/or random initial velocity) under the midpoint scheme with the gonzalez stress, the adaptive quadrature stress (energyTol = 1e-10), fixed strain-path rules (1, 2, 3, 5 points: exactly conserving for Saint-Venant-Kirchhoff, whose dW/de is linear) and the pointwise stress (not conserving: consistency checks only), optionally with Kelvin-Voigt viscosity or an active fibre stress (non-conservative: consistency checks only), for NeoHookean, Mooney-Rivlin, Ciarlet-Geymonat, Saint-Venant-Kirchhoff and Holzapfel-Ogden (two fibre families, every term switched on) laws, step-size changes and density changes between steps (the energy constant is re-based at the change; the kinetic energy uses the first assembled mass scaled by the ratio of the densities, never a mass re-read from the simulation), Save_Iter / Set_Iter rollback and injected back-end failures inside a Newton iteration followed by a retry. Invariant after every step: |KE + W - E0| <= 1e-5 of the energy scale; a failed step leaves (u, v, a) untouched; rollback returns to the recorded energy. At trial states away from u_n along the trajectory: A = coefK K + coefC C + coefM M applied to a direction equals the central difference of the assembled residual (scheme, stress option and previous state included). At the reference state each run starts from: W = 0, zero internal force, the unloaded static solve does not move the body.",
     "NOT decided: stress = dW/de, tangent = d(stress)/de, objectivity (pure); tangent/residual consistency is checked only for the assembled Newton system on visited states, not per operator over all inputs. Runs with a non-converging or inverted step are discarded and counted. The mass matrix is the one the simulation assembles.",
     "deterministic simulation: seeded dynamic trajectories with fault injection, conserved-quantity oracle, ddmin-minimised replay files",
     "DESIGN.md section 5, C18",
